@@ -53,6 +53,38 @@ static void judge(const std::string &src, uint64_t order, const std::string &fam
     st.outcome(fnv(a.err.substr(0, a.err.find('\n'))));
   }
 }
+
+// ---- process level: the built executable itself (argument parsing, the catch site in main, exit status, stderr, output file)
+static int runTool(const std::vector<std::string> &argv, const std::string &cwd, std::string &err, double timeout) {
+  std::string errPath = cwd + "/stderr.txt";
+  pid_t p = fork();
+  if (p == 0) {
+    if (chdir(cwd.c_str())) _exit(126);
+    std::vector<char *> a; for (auto &s : argv) a.push_back((char *)s.c_str()); a.push_back(nullptr);
+    if (!freopen("/dev/null", "rb", stdin) || !freopen("/dev/null", "wb", stdout) || !freopen(errPath.c_str(), "wb", stderr)) _exit(126);
+    execv(a[0], a.data()); _exit(127);
+  }
+  double t0 = now(); int status = 0;
+  while (true) { pid_t r = waitpid(p, &status, WNOHANG); if (r == p) break; if (now() - t0 > timeout) { kill(p, SIGKILL); waitpid(p, &status, 0); return -999; } usleep(300); }
+  err = slurp(errPath);
+  return WIFEXITED(status) ? WEXITSTATUS(status) : -WTERMSIG(status);
+}
+// runs `tool src [-o out | listingOpt]` and judges the contract; returns "" or what is wrong
+static std::string judgeProcess(const std::string &tool, const std::string &src, const std::string &dir, const std::string &listingOpt, std::string &kind) {
+  spit(dir + "/in.src", src); unlink((dir + "/out.bin").c_str()); unlink((dir + "/a.out").c_str());
+  std::string err; std::vector<std::string> av = {tool, "in.src"};
+  if (listingOpt.empty()) { av.push_back("-o"); av.push_back("out.bin"); } else av.push_back(listingOpt);
+  int rc = runTool(av, dir, err, 60);
+  bool emitted = access((dir + "/out.bin").c_str(), F_OK) == 0 || access((dir + "/a.out").c_str(), F_OK) == 0;
+  if (rc == -999) { kind = "hang"; return "did not terminate within 60 s"; }
+  if (rc < 0) { kind = "crash"; return "terminated by signal " + std::to_string(-rc) + " (stderr: " + err.substr(0, 120) + ")"; }
+  if (rc == 0 && listingOpt.empty() && !emitted) { kind = "contract"; return "exit status 0 but no binary"; }
+  if (rc != 0 && emitted) { kind = "contract"; return "non-zero status but a binary was left behind"; }
+  if (rc != 0 && err.find("Error") == std::string::npos) { kind = "contract"; return "non-zero status " + std::to_string(rc) + " without a diagnostic (stderr: " + err.substr(0, 120) + ")"; }
+  if (rc == 0 && err.find("Error") != std::string::npos) { kind = "contract"; return "diagnostic printed but exit status 0"; }
+  return "";
+}
+
 static int runProc(const std::vector<std::string> &argv, const std::string &cwd, std::string &err, double timeout) {
   std::string errPath = cwd + "/stderr.txt";
   pid_t p = fork();
@@ -89,7 +121,7 @@ int main(int argc, char **argv) {
   std::vector<std::string> bytes; for (int i = 0; i < 256; i++) bytes.push_back(std::string(1, (char)i));
   auto B2 = std::make_shared<robust::Strings>(bytes, 2);
   fams.push_back({"bytes<=2", [=] { return B2->total; }, [=](uint64_t i, std::string *) { return B2->make(i); }, 64});
-  std::vector<std::string> lexAlpha = {"a", "0", "9", "#", "'", "\"", "\\", "|", ":", "=", "<", ">", "~", "(", ")", "[", "]", "{", "}", ";", ",", "+", "-", " ", "\n", "\x80", "\xff"};
+  std::vector<std::string> lexAlpha = {"a", "0", "9", "#", "'", "\"", "\\", "|", ":", "=", "<", ">", "~", "(", ")", "[", "]", "{", "}", ";", ",", "+", "-", " ", "\n", "\x80", "\xff", "%", "$"};
   auto L = std::make_shared<robust::Strings>(lexAlpha, th ? 5 : 4);
   fams.push_back({"lexical<=" + std::to_string(L->maxLen), [=] { return L->total; }, [=](uint64_t i, std::string *) { return L->make(i); }, 512});
   auto T = std::make_shared<robust::Strings>(TOK, th ? 4 : 3, " ");
@@ -160,6 +192,30 @@ int main(int argc, char **argv) {
     rep.st.add("family:" + f.name, r.complete ? n : 0);
     if (!r.complete || r.stats.c.count("inputs_skipped_deadline")) rep.caps.push_back("family " + f.name + ": incomplete");
   }
+  // the built xcmp executable: semantic oddities, lexical strings <= 2 and a few format-like sources, in binary and -S mode (the catch sites in main and in runCatchExceptions print the offending line)
+  if (getenv("HEX_CLI") && !ctx.expired()) {
+    std::string tool = std::string(getenv("HEX_CLI")) + "/xcmp";
+    std::vector<std::string> inputs = *S;
+    robust::Strings L2(lexAlpha, 2);
+    for (uint64_t i = 0; i < L2.total; i++) inputs.push_back(L2.make(i));
+    for (const char *x : {"proc main() is 0(1 % 2)", "proc main() is 0(%d)", "proc main() is %s", "%n%n%n", "proc main() is 0(\"%s%n\")", "proc main() is p%1$s()", "val x = 5 %;", "proc main() is { x%d := 1 }"}) inputs.push_back(x);
+    phase(ctx, "process level: " + std::to_string(inputs.size()) + " inputs x 2 modes through the built xcmp");
+    auto body = [&](uint64_t b, uint64_t e, const std::set<uint64_t> &skip, Stats &st, volatile uint64_t *cur) {
+      std::string dir = ctx.scratch + "/pl" + std::to_string(b); mkdir(dir.c_str(), 0755);
+      for (uint64_t i = b; i < e; i++) {
+        *cur = i; if (skip.count(i)) continue;
+        for (const char *mode : {"", "-S"}) {
+          std::string kind, w = judgeProcess(tool, inputs[i], dir, mode, kind);
+          st.add("process_runs");
+          if (!w.empty()) st.violation("process:" + kind, i, Obj().kv("family", "process").kv("mode", mode).kv("what", w).kv("source_hex", hexs(inputs[i].substr(0, 6000))).kv("source", inputs[i].substr(0, 300)).str());
+        }
+      }
+      std::string rm = "rm -rf '" + dir + "'"; if (system(rm.c_str())) {}
+    };
+    auto r = run_chunks(ctx, "proc", inputs.size(), 64, body, [&](uint64_t i) { return Obj().kv("family", "process").kv("source_hex", hexs(inputs[i].substr(0, 6000))).str(); }, 120, (size_t)1 << 45);
+    rep.st.merge(r.stats);
+    if (!r.complete) rep.caps.push_back("process level: incomplete");
+  }
   // (e) nesting depth, judged on the built executable with the repository's own flags and the default stack
   const char *cli = getenv("HEX_CLI");
   if (cli) {
@@ -199,7 +255,7 @@ int main(int argc, char **argv) {
     rep.st.merge(st);
   }
   auto &c = rep.st.c;
-  rep.evaluations = c["inputs"] * 2 + c["depth_inputs"]; rep.states = c["inputs"] + c["depth_inputs"]; rep.transitions = rep.evaluations; rep.validated = rep.states;
+  rep.evaluations = c["inputs"] * 2 + c["depth_inputs"] + c["process_runs"]; rep.states = c["inputs"] + c["depth_inputs"]; rep.transitions = rep.evaluations; rep.validated = rep.states;
   rep.nontrivial = c["accepted"] + (uint64_t)rep.st.outcomes.size();
   rep.rule = "inputs: every byte string of length <=2; every string of length <=4 (5) over a 27-symbol lexical alphabet; every token string of length <=3 (4) over xcmp's 39 source tokens, bare and embedded "
              "in statement, expression and declaration position of a valid program; every single-token edit (delete, duplicate, swap, replace by every token, every identifier of the program and hostile "
